@@ -1,9 +1,10 @@
 #!/bin/sh
-# Builds the framework from files on disk only (offline): the Lean project (models, theorems, driver)
-# and the Rust harness (against /repo's working tree).
+# Builds the framework from files on disk only (offline): the Lean project (models, theorems, drivers)
+# and the Rust harness (against /repo's working tree).  Every check rebuilds what it needs anyway;
+# this warms the caches so that the first check is not slow.
 set -e
 cd "$(dirname "$0")"
 export CARGO_NET_OFFLINE=true
 python3 tools/extract.py >/dev/null
-(cd lean && lake build AskarModel Driver askar_model)
-(cd harness && cargo build --offline)
+(cd lean && lake build askar_model_store askar_model_c06 AskarModel.Props.C01 AskarModel.Props.C04 AskarModel.Props.C05 AskarModel.Props.C06 AskarModel.Props.C07 AskarModel.Props.C16 AskarModel.Props.C17)
+(cd harness && cargo build --offline --no-default-features --features c06)
